@@ -46,7 +46,7 @@ Verdict check_azeq(const J& r) {
   double lat, lon, t; g.ArcDirect(lat0, lon0, azi, arc, lat, lon, t);
   double x, y, az, rk; p.Forward(lat0, lon0, lat, lon, x, y, az, rk);
   int solver = exact ? 2 : 0;
-  L tolp = 2 * doc_tol(solver, a, f) * (1 + (L)arc / 90);
+  L tolp = kdoc(solver, a, f) * (1 + (L)arc / 90);
   L s = hypotl((L)x, (L)y), a0 = atan2l((L)x, (L)y) / ref::DEG_L;
   if (std::fabs(lat0) == 90 || std::fabs(lat) == 90) { v.skip("pole: azimuth tied to the longitude convention"); return v; }
   ref::OdeResult R = ode.direct(lat0, lon0, a0, s, 0, 0.01L * tolp);
@@ -78,7 +78,7 @@ Verdict check_gnom(const J& r) {
   Dir dd = lib_direct(solver, a, f, lat0, lon0, azi, true, arc);
   double lat = dd.lat2, lon = dd.lon2;
   double x, y, az, rk; p.Forward(lat0, lon0, lat, lon, x, y, az, rk);
-  L tolp = 2 * doc_tol(solver, a, f) * (1 + (L)arc / 90);
+  L tolp = kdoc(solver, a, f) * (1 + (L)arc / 90);
   // reference Jacobi fields along the (validated) geodesic from the centre to the point
   Inv iv = lib_inverse(solver, a, f, lat0, lon0, lat, lon);
   ref::OdeResult R = ode.direct(lat0, lon0, iv.azi1, iv.s12, 0, 0.01L * tolp);
@@ -125,7 +125,7 @@ Verdict check_cass(const J& r) {
   Geodesic g(a, f, exact); CassiniSoldner p(lat0, lon0, g);
   int solver = exact ? 2 : 0;
   double lat, lon, az, rk; p.Reverse(x, y, lat, lon, az, rk);
-  L tolp = 2 * doc_tol(solver, a, f) * (2 + (fabsl((L)x) + fabsl((L)y)) / Q4);
+  L tolp = kdoc(solver, a, f) * (2 + (fabsl((L)x) + fabsl((L)y)) / Q4);
   if (std::fabs(lat0) == 90) { v.skip("pole origin"); return v; }
   // leg 1: along the central meridian (azimuth 0 at the origin) by y; leg 2: turn right, go x
   ref::OdeResult R1 = ode.direct(lat0, lon0, 0, y, 0, 0.005L * tolp);
@@ -177,7 +177,7 @@ Verdict check_int(const J& r) {
   Intersect::Point p0(px, py);
   int c = 99; Intersect::Point q = in.Closest(X.lat, X.lon, X.azi, Y.lat, Y.lon, Y.azi, p0, &c);
   // documented accuracy of the intersection itself: the lines are followed with the geodesic accuracy
-  L tolp = 2 * doc_tol(0, a, f) * (2 + (fabsl((L)q.first) + fabsl((L)q.second)) / (circ / 4));
+  L tolp = kdoc(0, a, f) * (2 + (fabsl((L)q.first) + fabsl((L)q.second)) / (circ / 4));
   L sep, ca;
   if (!ode_sep(E, X, Y, q.first, q.second, sep, ca, 0.01L * tolp)) { v.skip("reference not converged"); return v; }
   // nearly parallel lines: the crossing point is located to (position accuracy)/sin(angle); the separation stays small
@@ -219,7 +219,7 @@ Verdict check_int(const J& r) {
       witnesses.push_back(w);
       L dw = fabsl((L)w.first - px) + fabsl((L)w.second - py);
       if (dw + 1 < d0) {
-        L s2, c2; L tw = 2 * doc_tol(0, a, f) * (2 + (fabsl((L)w.first) + fabsl((L)w.second)) / (circ / 4));
+        L s2, c2; L tw = kdoc(0, a, f) * (2 + (fabsl((L)w.first) + fabsl((L)w.second)) / (circ / 4));
         if (ode_sep(E, X, Y, w.first, w.second, s2, c2, 0.01L * tw) && s2 <= 8 * tw + 1e-9L)
           v.le(d0 - dw, 1.0L, "Closest is farther from p0 than a valid intersection found from another start offset [m]");
       }
@@ -267,7 +267,7 @@ Verdict check_int(const J& r) {
       if (!(dw < maxdist - 10)) continue;
       bool present = false; for (auto& u : all) if (std::fabs(u.first - w.first) + std::fabs(u.second - w.second) < 1.0) present = true;
       if (!present) {
-        L s2, c2; L tw = 2 * doc_tol(0, a, f) * (2 + (fabsl((L)w.first) + fabsl((L)w.second)) / (circ / 4));
+        L s2, c2; L tw = kdoc(0, a, f) * (2 + (fabsl((L)w.first) + fabsl((L)w.second)) / (circ / 4));
         if (ode_sep(E, X, Y, w.first, w.second, s2, c2, 0.01L * tw) && s2 <= 8 * tw + 1e-9L) {
           // a shallow crossing is located only to (position accuracy)/sin(angle): widen the match radius accordingly
           L sw = sqrtl(std::max<L>(0, 1 - c2 * c2)); L rad = 1 + 100 * (8 * tw + 1e-9L) / std::max(sw, 1e-12L);
